@@ -18,6 +18,11 @@
 (*  PHASE=subs : hand-built subscription plans at the resolve level (trigger +  *)
 (*               root object from the event + a nested request per update):    *)
 (*               root non-null? x P (<= MaxP of the 6 families) x d x mode.    *)
+(*  PHASE=collide: hand-built plans `{ o1 { a } o2 { b } }` whose two protected *)
+(*               coordinates (data source id, type, field) concatenate to the  *)
+(*               same string without a separator (User.sso / Users.so, A.bc /  *)
+(*               Ab.c, data source "d" + type "sT" / "ds" + "T"): either order, *)
+(*               every protected subset, every decision pair, every mode.      *)
 (* Round 3: mode "both" (BatchAuthorizer and Authorizer set together); partial  *)
 (* = only the coordinate c of a family carries the rule (and is denied); fail   *)
 (* = the authorizer returns an ERROR for one protected family (fail closed).    *)
@@ -29,7 +34,14 @@ vars == <<op, P, den, mode, delivery, split, partial, fail>>
 MenuPhase == IOEnv.PHASE = "menu"
 SynthPhase == IOEnv.PHASE = "synth"
 SubsPhase == IOEnv.PHASE = "subs"
-Ops == IF MenuPhase \/ SynthPhase \/ SubsPhase THEN <<>> ELSE ndJsonDeserialize(IOEnv.OPS)
+CollidePhase == IOEnv.PHASE = "collide"
+Ops == IF MenuPhase \/ SynthPhase \/ SubsPhase \/ CollidePhase THEN <<>> ELSE ndJsonDeserialize(IOEnv.OPS)
+CC(ds, ty, f) == [ds |-> ds, type |-> ty, field |-> f]
+Collisions == << <<CC("ds1", "User", "sso"), CC("ds1", "Users", "so")>>,
+                 <<CC("ds1", "A", "bc"), CC("ds1", "Ab", "c")>>,
+                 <<CC("d", "sT", "x"), CC("ds", "T", "x")>>,
+                 <<CC("ds1", "Ab", "cd"), CC("ds1", "A", "bcd")>>,
+                 <<CC("ds1", "Tenant", "id"), CC("ds1", "Tenanti", "d")>> >>
 Layouts == {<<2>>, <<3>>, <<1, 2>>, <<2, 1>>}
 SubFams == {"Subscription.ev", "Event.id", "Event.secret", "Event.detail", "Detail.text", "Detail.note"}
 Modes == {"post", "batch", "both"}
@@ -45,6 +57,13 @@ Init ==
   THEN \* op = [kind, layout, nnfirst]; P, den = sets of root field numbers
        /\ op \in [kind : {"query", "mutation", "subscription"}, layout : Layouts, nnfirst : BOOLEAN]
        /\ P \in SUBSET (1..SumSeq(op.layout))
+       /\ den \in SUBSET P
+       /\ mode \in Modes
+       /\ delivery = "sync" /\ Plain
+  ELSE IF CollidePhase
+  THEN \* op = [pair, swap]; P, den = subsets of {1, 2} (the two coordinates of the pair)
+       /\ op \in [pair : DOMAIN Collisions, swap : BOOLEAN]
+       /\ P \in SUBSET {1, 2} \ {{}}
        /\ den \in SUBSET P
        /\ mode \in Modes
        /\ delivery = "sync" /\ Plain
@@ -82,6 +101,8 @@ Emit ==
   THEN PrintT(ToJson(Menu[op]))
   ELSE IF SynthPhase
   THEN PrintT(ToJson([synth |-> op, P |-> P, deny |-> den, mode |-> mode]))
+  ELSE IF CollidePhase
+  THEN PrintT(ToJson([collide |-> [pair |-> op.pair, swap |-> op.swap, coords |-> Collisions[op.pair]], P |-> P, deny |-> den, mode |-> mode]))
   ELSE IF SubsPhase
   THEN PrintT(ToJson([subs |-> op, P |-> P, deny |-> den, mode |-> mode, fail |-> fail]))
   ELSE PrintT(ToJson([op |-> Ops[op].id, P |-> P, deny |-> den, mode |-> mode, delivery |-> delivery, split |-> split,
